@@ -1,6 +1,7 @@
 import Driver.Query
 import Driver.Mutate
 import Driver.Builder
+import Driver.Graph
 open Lean (Json)
 open Treepath.Driver
 
@@ -14,6 +15,7 @@ def handleLine (line : String) : String :=
       | "q" => handleQuery j
       | "m" => handleMutate j
       | "b" => handleBuilder j
+      | "g" => handleGraph j
       | _ => .error ("unknown family " ++ fam)
     match r with
     | .ok out => (Json.mkObj [("id", id), ("out", out)]).compress
